@@ -228,15 +228,16 @@ def getter_history(p, kind, rng, n_calls):
     hist = []
     for _ in range(n_calls):
         N = rng.choice([None, 1, 2, n // 3 + 1, n - 1, n, rng.randint(1, n)])
-        proj = rng.random() < 0.5
+        # the flag in the spellings a caller may hand over (bool, numpy bool, 0/1, result of a numpy comparison)
+        proj = rng.choice([True, np.True_, 1, np.float64(2.0) > 1] if rng.random() < 0.5 else [False, np.False_, 0])
         if kind == "cube4D" and rng.random() < 0.5:
             if N is not None:
                 N = min(N, n // 2)
             p.get_half_of_hypercube(projection=proj, N=N)
-            hist.append(["half", N, proj])
+            hist.append(["half", N, repr(proj)])
         else:
             p.get_nodes(N=N, projection=proj)
-            hist.append(["nodes", N, proj])
+            hist.append(["nodes", N, repr(proj)])
     return hist
 
 
